@@ -107,6 +107,10 @@ func (fc *FnCtx) call(ins ssa.Instruction, cc *ssa.CallCommon) {
 		resVal = v
 	}
 	setRes := func(v Value) {
+		if fc.lastCall == nil {
+			fc.lastCall = map[string]Value{}
+		}
+		fc.lastCall[calleeDisplayName(cc)] = v
 		if resVal != nil {
 			if v.K == KOpaque {
 				fc.vals[resVal] = v
@@ -120,6 +124,7 @@ func (fc *FnCtx) call(ins ssa.Instruction, cc *ssa.CallCommon) {
 		args = append(args, fc.val(a))
 	}
 	pos := ins.Pos()
+	fc.callAsserts(ins, cc, args, pos)
 	if b, ok := cc.Value.(*ssa.Builtin); ok {
 		setRes(fc.builtin(b, cc, args, pos, resVal))
 		return
@@ -128,6 +133,14 @@ func (fc *FnCtx) call(ins ssa.Instruction, cc *ssa.CallCommon) {
 		recv := fc.val(cc.Value)
 		if recv.K == KIface {
 			fc.oblige("nil", fc.desc(pos, "invoke "+cc.Method.Name()), pos, Not(Eq(recv.E[0].T, IntLit(0))))
+		}
+		if ic := fc.eng.ifaceContract(cc); ic != nil && ic.Pure && ic.Assumed && strings.Contains(ic.Func, ").* [") && cc.Signature().Results().Len() == 1 {
+			// pure callback with a result: an uninterpreted function of receiver and arguments
+			if v, ok := fc.ifaceMethodUF(ifaceName(cc), cc.Method.Name(), recv, args, cc.Signature().Results().At(0).Type()); ok {
+				fc.usedAssumed[ic.Pkg+"::"+ic.Func] = true
+				setRes(v)
+				return
+			}
 		}
 		if ic := fc.eng.ifaceContract(cc); ic != nil {
 			// bind parameters by the interface method's signature
@@ -424,6 +437,26 @@ func (fc *FnCtx) applyContract(c *Contract, cname string, names []string, typs [
 			continue
 		}
 		fc.assume(t)
+	}
+	for _, gu := range c.GhostUpd {
+		if _, ok := st.ghost[gu.Var]; !ok {
+			fc.unbound = append(fc.unbound, fmt.Sprintf("call %s ghost-set: unknown ghost %s", cname, gu.Var))
+			continue
+		}
+		gpost := post.sub()
+		sv, err := fc.specExpr(gpost, gu.Expr)
+		if err != nil {
+			fc.unbound = append(fc.unbound, fmt.Sprintf("call %s ghost-set %s: %v", cname, gu.Var, err))
+			continue
+		}
+		if sv.isConst {
+			sv = gpost.coerce(sv, ghostType(fc.eng.ghosts[gu.Var].Type))
+		}
+		if sv.v.K != KLeaf || sv.v.T.Sort != st.ghost[gu.Var].Sort {
+			fc.unbound = append(fc.unbound, fmt.Sprintf("call %s ghost-set %s: sort mismatch", cname, gu.Var))
+			continue
+		}
+		st.ghost[gu.Var] = fc.define(fc.freshName("G_"+gu.Var), sv.v.T)
 	}
 	for _, fr := range c.Fresh {
 		if b, ok := post.binds[fr]; ok {
@@ -800,25 +833,8 @@ func (fc *FnCtx) dynamicCall(cc *ssa.CallCommon, args []Value, pos token.Pos) Va
 	// pure-function-parameter convention: fn params declared `pure` in the contract
 	if fc.c != nil {
 		if p, ok := cc.Value.(*ssa.Parameter); ok && fc.c.pureParam(p.Name()) && sig.Results().Len() == 1 && fv.K == KLeaf {
-			rs := shapeOf(sig.Results().At(0).Type(), fc.mode)
-			if rs.K == KLeaf {
-				name := "apply"
-				var ts []Term
-				ts = append(ts, fv.T)
-				ok := true
-				for _, a := range args {
-					if a.K != KLeaf {
-						ok = false
-						break
-					}
-					name += "_" + sortTag(a.T.Sort)
-					ts = append(ts, a.T)
-				}
-				if ok {
-					name += "_" + sortTag(rs.Sort)
-					fc.eng.needApply(name, ts, rs.Sort)
-					return Leaf(mk(rs.Sort, name, ts...))
-				}
+			if v, ok := fc.applyUF(fv.T, args, sig.Results().At(0).Type()); ok {
+				return v
 			}
 		}
 	}
@@ -998,4 +1014,110 @@ func (e *Engine) heapPureBody(fn *ssa.Function) bool {
 		}
 	}
 	return true
+}
+
+// calleeDisplayName names a call target for assert-call matching.
+func calleeDisplayName(cc *ssa.CallCommon) string {
+	if b, ok := cc.Value.(*ssa.Builtin); ok {
+		return b.Name()
+	}
+	if cc.IsInvoke() {
+		return ifaceName(cc) + "." + cc.Method.Name()
+	}
+	switch v := cc.Value.(type) {
+	case *ssa.Function:
+		return v.String()
+	case *ssa.MakeClosure:
+		return v.Fn.(*ssa.Function).String()
+	}
+	return "dynamic"
+}
+
+// callAsserts checks the enclosing function's assert-call clauses at this site.
+func (fc *FnCtx) callAsserts(ins ssa.Instruction, cc *ssa.CallCommon, args []Value, pos token.Pos) {
+	if fc.c == nil || len(fc.c.CallAsserts) == 0 {
+		return
+	}
+	name := calleeDisplayName(cc)
+	for i := range fc.c.CallAsserts {
+		ca := &fc.c.CallAsserts[i]
+		if !strings.HasSuffix(name, ca.Callee) {
+			continue
+		}
+		// ordinal = position among the matching call sites in source order
+		ord := 0
+		for _, b := range fc.fn.Blocks {
+			for _, other := range b.Instrs {
+				ci, ok := other.(ssa.CallInstruction)
+				if !ok || other == ins {
+					continue
+				}
+				if strings.HasSuffix(calleeDisplayName(ci.Common()), ca.Callee) && other.Pos() < ins.Pos() {
+					ord++
+				}
+			}
+		}
+		if ca.Ord >= 0 && ca.Ord != ord {
+			continue
+		}
+		env := fc.newEnv(fc.cur)
+		env.atBlk = ins.Block()
+		env.wholeBlk = true
+		env.upTo = ins
+		for k, a := range args {
+			if k < len(cc.Args) {
+				env.binds[fmt.Sprintf("arg%d", k)] = binding{a, cc.Args[k].Type()}
+			}
+		}
+		t, err := fc.specBool(env, ca.Clause.Text)
+		if err != nil {
+			fc.unbound = append(fc.unbound, fmt.Sprintf("assert-call %s %q: %v", ca.Callee, ca.Clause.Text, err))
+			continue
+		}
+		ca.Hits++
+		fc.oblige("assert-call", ca.Callee+": "+ca.Clause.Text, pos, t)
+	}
+}
+
+// ifaceMethodUF models a pure interface method as an uninterpreted function.
+func (fc *FnCtx) ifaceMethodUF(iface, method string, recv Value, args []Value, rt types.Type) (Value, bool) {
+	rs := shapeOf(rt, fc.mode)
+	if rs.K != KLeaf || recv.K != KIface {
+		return Value{}, false
+	}
+	name := "im_" + iface + "_" + method
+	ts := []Term{recv.E[0].T, recv.E[1].T}
+	for _, a := range args {
+		if a.K != KLeaf {
+			return Value{}, false
+		}
+		name += "_" + sortTag(a.T.Sort)
+		ts = append(ts, a.T)
+	}
+	name += "_" + sortTag(rs.Sort)
+	fc.eng.needApply(name, ts, rs.Sort)
+	return Leaf(mk(rs.Sort, name, ts...)), true
+}
+
+// applyUF: the result of calling a pure function value, as an uninterpreted
+// function of the function value and the (flattened) arguments.
+func (fc *FnCtx) applyUF(fn Term, args []Value, rt types.Type) (Value, bool) {
+	rs := shapeOf(rt, fc.mode)
+	if rs.K != KLeaf {
+		return Value{}, false
+	}
+	name := "apply"
+	ts := []Term{fn}
+	for _, a := range args {
+		if a.K == KOpaque {
+			return Value{}, false
+		}
+		for _, l := range a.Leaves() {
+			name += "_" + sortTag(l.Sort)
+			ts = append(ts, l)
+		}
+	}
+	name += "_" + sortTag(rs.Sort)
+	fc.eng.needApply(name, ts, rs.Sort)
+	return Leaf(mk(rs.Sort, name, ts...)), true
 }
